@@ -25,8 +25,8 @@ def _strategy(cfg, q, ind):
                 "%s    interval: 1" % ind, "%s    interval_unit: hour" % ind]
     return ["%sstrategy:" % ind, "%s  concurrent:" % ind,
             "%s    max_request_count: %d" % (ind, cfg["Max"][q]),
-            "%s    request_expiration_sec: %d" % (ind, cfg["Expiry"][q]),
-            "%s    gc_interval_sec: %d" % (ind, cfg["GcPeriod"][q])]
+            "%s    request_expiration_sec: %d" % (ind, cfg["Expiry"][q] // cfg.get("k", 1)),
+            "%s    gc_interval_sec: %d" % (ind, cfg["GcPeriod"][q] // cfg.get("k", 1))]
 
 
 def files_of(cfg):
@@ -95,6 +95,7 @@ def script_of(cfg, histories, hooks=False):
     model["txns"] = list(model["txns"]) + ["s%d" % i for i in range(NSTORM)]
     flows = {f: {"url": "api.test/%s" % f, "qs": fl["qs"]} for f, fl in cfg["flows"].items()}
     return {"config": model, "files": files_of(cfg), "flows": flows, "ngc": len(cfg["quotas"]), "hooks": hooks,
+            "tick_ms": 1000 // cfg.get("k", 1),
             "histories": histories}
 
 
@@ -118,18 +119,20 @@ def rand_config(rng, thorough, shape=None):
     sh = shape or rng.choice(SHAPES)
     cfg = {"quotas": list(sh["quotas"]), "parent": dict(sh["parent"]), "flows": json.loads(json.dumps(sh["flows"])),
            "Max": {}, "Expiry": {}, "GcPeriod": {}, "txns": ["t%d" % i for i in range(NTXN)]}
+    # ticks per second: with 2 or 4 the engine start, the admissions and the GC passes fall on sub-second clock readings
+    k = cfg["k"] = rng.choice([1, 2, 4, 4])
     if "fixed" in sh:
         cfg["fixed"] = {q: True for q in sh["fixed"]}
         cfg["real_parent"] = dict(sh["real_parent"])
     for q in cfg["quotas"]:
         cfg["Max"][q] = rng.choice([1, 2, 3, 3, 4])
-        cfg["Expiry"][q] = rng.choice([2, 3, 4])
-        cfg["GcPeriod"][q] = rng.choice([1, 2, 3])
+        cfg["Expiry"][q] = rng.choice([2, 3, 4]) * k         # in ticks; the YAML states whole seconds
+        cfg["GcPeriod"][q] = rng.choice([1, 2, 3]) * k
     for q in cfg["quotas"]:
         # a child collected more often than its parent: the two forget an expired transaction at different instants
         if cfg["parent"][q] != "-" and rng.random() < 0.75:
-            cfg["GcPeriod"][q] = 1
-            cfg["GcPeriod"][cfg["parent"][q]] = rng.choice([2, 3])
+            cfg["GcPeriod"][q] = k
+            cfg["GcPeriod"][cfg["parent"][q]] = rng.choice([2, 3]) * k
     return cfg
 
 
@@ -138,7 +141,8 @@ def rand_history(rng, cfg, n, conc):
     presented AGAIN (a new request with an old id, e.g. the retry of a hung call) once its previous transaction is
     certainly over whatever the gateway answered: it was ended explicitly (response / proxy error), or it was
     requested more than max(expiry + GC period) ticks ago."""
-    now = rng.randint(1, 5)
+    k = cfg.get("k", 1)
+    now = rng.randint(1, 4 * k + 1)          # the engine starts at a sub-second clock reading when k > 1
     h = [{"ev": "reset", "now": now}]
     flows = sorted(cfg["flows"])
     far_all = max(cfg["Expiry"][q] + cfg["GcPeriod"][q] for q in cfg["quotas"])
@@ -214,7 +218,7 @@ def rand_history(rng, cfg, n, conc):
     for _ in range(n):
         x = rng.random()
         if x < 0.18:
-            adv(rng.choice([1, 1, 2, 3]))
+            adv(rng.choice([1, 1, 2, 3, k, k + 1, 2 * k, 3 * k]))
         elif conc and x < 0.34:
             ops, used = [], set()
             for _ in range(rng.randint(2, 4)):
@@ -265,7 +269,7 @@ def storm_histories(rng, cfg, rounds, nh):
     flows = sorted(cfg["flows"])
     hs = []
     for _ in range(nh):
-        h = [{"ev": "reset", "now": rng.randint(1, 5)}]
+        h = [{"ev": "reset", "now": rng.randint(1, 4 * cfg.get("k", 1) + 1)}]
         for _ in range(rounds):
             h.append({"ev": "storm", "flow": rng.choice(flows), "n": NSTORM, "rel": rng.choice(["resp", "resp", "err", "mixed"])})
             if rng.random() < 0.15:
@@ -284,7 +288,7 @@ def late_end_histories(cfg):
         allq = [x for q in qs for x in chain(cfg, q)]
         far = max(cfg["Expiry"][x] + cfg["GcPeriod"][x] for x in allq) + 1
         for d in range(1, far + 1):
-            for end in ("err", "resp"):
+            for end in (("err", "resp") if cfg.get("k", 1) == 1 else (("err",) if d % 2 else ("resp",))):
                 h = [{"ev": "reset", "now": 1 + (d % 3)}, {"ev": "req", "t": "t0", "flow": f, "early": False},
                      {"ev": "adv", "d": d}, {"ev": end, "t": "t0"}]
                 n, ts = 1, []
@@ -297,6 +301,36 @@ def late_end_histories(cfg):
                             n += 1
                 h.append({"ev": "req", "t": "t0", "flow": f, "early": False})       # the old id again: a new request
                 h += [{"ev": "resp", "t": t} for t in ts + ["t0"]]
+                out.append(h)
+    return out
+
+
+def hold_histories(cfg):
+    """systematic family on the time grid: the engine starts, a ticks later (every sub-second phase) a transaction is
+    admitted and simply stays in flight; d ticks later (every d from one second before its expiry to expiry + GC period)
+    every flow is filled: as long as the expiry time has not passed its slot must still be taken."""
+    out = []
+    k = cfg.get("k", 1)
+    for f in sorted(cfg["flows"]):
+        allq = [x for q in cfg["flows"][f]["qs"] for x in chain(cfg, q)]
+        emin = min(cfg["Expiry"][x] for x in allq)
+        far = max(cfg["Expiry"][x] + cfg["GcPeriod"][x] for x in allq) + 1
+        for a in range(k):
+            for d in range(max(1, emin - k), far + 1):
+                h = [{"ev": "reset", "now": 1 + (d % (2 * k))}]
+                if a:
+                    h.append({"ev": "adv", "d": a})
+                h.append({"ev": "req", "t": "t0", "flow": f, "early": False})
+                h.append({"ev": "adv", "d": d})
+                n, ts = 1, ["t0"]
+                for g in sorted(cfg["flows"]):
+                    m = min(cfg["Max"][x] for q in cfg["flows"][g]["qs"] for x in chain(cfg, q))
+                    for _ in range(min(m, 4)):
+                        if n < NTXN:
+                            ts.append("t%d" % n)
+                            h.append({"ev": "req", "t": "t%d" % n, "flow": g, "early": False})
+                            n += 1
+                h += [{"ev": "resp", "t": t} for t in ts]
                 out.append(h)
     return out
 
@@ -430,7 +464,7 @@ def judge(ctx, binary, scripts, traces, tag, seen_hist):
 
 
 GEN_CONFIG = {"quotas": ["qa", "qb", "cc"], "parent": {"qa": "-", "qb": "-", "cc": "qa"},
-              "Max": {"qa": 3, "qb": 1, "cc": 2}, "Expiry": {"qa": 2, "qb": 3, "cc": 2}, "GcPeriod": {"qa": 2, "qb": 1, "cc": 2},
+              "k": 2, "Max": {"qa": 3, "qb": 1, "cc": 2}, "Expiry": {"qa": 4, "qb": 6, "cc": 4}, "GcPeriod": {"qa": 4, "qb": 2, "cc": 4},
               "txns": ["t%d" % i for i in range(6)],
               "flows": {"f": {"qs": ["cc"]}, "g": {"qs": ["qa", "qb"]}, "h": {"qs": ["qb"]}}}
 
@@ -463,7 +497,7 @@ def run(ctx):
     ctx.cov["trusted_base"] = ["TLC 1.8", "CommunityModules Json", "Go toolchain", "clock.MockClock (+PendingTimers)",
                                "harness/cmd/c02 projection (no early-return action = admit, 429 = refuse, 200 = answered early)",
                                "hook cq.gc.done as the completion signal of a background GC pass"]
-    ctx.assumptions += ["1 tick = 1 s; the clock moves tick by tick and no operation overlaps a background GC pass (the pass due at a tick completes before the next event)",
+    ctx.assumptions += ["1 tick = 1 s, 500 ms or 250 ms (engine start, admissions and GC passes then fall on sub-second clock readings; expiry and GC interval are whole seconds); the clock moves tick by tick and no operation overlaps a background GC pass (the pass due at a tick completes before the next event)",
                         "a transaction id is presented again (a new request) only after its previous transaction is over: ended by response / proxy error / early or refusing answer, or requested more than expiry + GC period ago; ids in flight are distinct; the end events of a transaction come after its request was answered",
                         "implementation-shaped model: a re-presented id does not race a GC pass, and the two critical sections of a request's Inc take less than a tick",
                         "mixed hierarchies: the fixed-window members are configured never to refuse (max 10^6 per hour), the specification sees the concurrency quotas only",
@@ -499,6 +533,7 @@ def run(ctx):
         hs = [rand_history(ctx.rng, cfg, hl, conc=(i % 2 == 1)) for i in range(nh)]
         if c < len(SHAPES) or T:
             hs += late_end_histories(cfg)
+            hs += hold_histories(cfg)
         hs += storm_histories(ctx.rng, cfg, 12 if not T else 25, 2 if not T else 6)
         scripts.append(script_of(cfg, hs, hooks=True))
     rtraces = execute(ctx, binary, scripts, "rand")
